@@ -26,7 +26,7 @@ WORKERS = int(os.environ.get("VERIF_WORKERS", "0") or 0) or vlib.NCPU
 NPROC = max(2, min(8, (int(os.environ.get("VERIF_WORKERS", "0") or 0) or vlib.NCPU // 2)))
 
 INV_MAIN = ("CodeAgreesResolve CodeAgreesStages CodeAgreesMaps NearerWins UserOverVarsOverDefaults EmptyIsDefinition "
-            "DefinedIffResolved StageEnds StageBlind LocalRanksAsVars IncludeIsALevel StoreWithinOwnKind RuntimeWriteIsLocal")
+            "DefinedIffResolved StageEnds StageBlind LocalRanksAsVars IncludeIsALevel StoreWithinOwnKind RuntimeWriteIsLocal EnvLookupAgrees")
 
 
 def _b(x):
@@ -176,7 +176,7 @@ def field_name(inv, variant, j):
     if inv == "ClassBelowWorkflow":
         return ["command value", "argument", "env", "property"][j - 1]
     if variant == "E":
-        return ["GlobalDefaults", "GlobalVars", "UserVars", "BaseConfigStack"][j - 3]
+        return ["GlobalDefaults", "GlobalVars", "UserVars", "BaseConfigStack", 'Environment.GetKV("", k)'][j - 3]
     if variant == "I":
         return "stage %d stack" % (j - 3) if j <= 8 else "name (stage 4)"
     if j == 3:
@@ -213,6 +213,8 @@ def run(ctx, replay_case=None):
         "an include role is two levels: its own defaults/vars/user vars, then the root of the sub-workflow it loads (served from "
         "memory by VerifVSLoadSubworkflowFunc, the same steps as the loadSubworkflow closure of workflow.Load); roles inside the "
         "sub-workflow get no user vars of their own (it does not exist before the load)",
+        "Environment.GetKV is asked on the environment built by newEnvironment after the loaded root role has been attached to it "
+        "as Manager.CreateEnvironment does (env.workflow = root, set through reflection: the field has no exported setter)",
         "runtime writes are one Role.SetRuntimeVar / DeleteRuntimeVar (what plugins call) or one real callable.Call.Call() with a "
         "`return` variable, made single-threaded after the load, on one of the two roles an iterator generated",
         "the whole-core path (TaskInfo.Data, CONFIGURE properties over the wire) is not exercised here",
